@@ -188,13 +188,16 @@ class Gen:
         """authorizationArea list for a command: n sessions.  Returns bytes, events."""
         out, evs = b"", [(path, "list[TPMS_AUTH_COMMAND]", None)]
         parent, last = path[:-1], path[-1]
-        dec_at = self.rng.randrange(n) if (decrypt and n) else None
-        enc_at = self.rng.randrange(n) if (encrypt and n) else None
+        # the attribute may stand in one session - or, on the wire, in several (a decoder has no business enforcing the
+        # TPM's own rule on a capture): configuration flag_twice, and now and then by chance
+        k = 2 if (n >= 2 and (getattr(self, "flag_twice", False) or self.rng.random() < 0.15)) else 1
+        dec_at = set(self.rng.sample(range(n), k)) if (decrypt and n) else set()
+        enc_at = set(self.rng.sample(range(n), k)) if (encrypt and n) else set()
         for i in range(n):
             a = self.rng.randrange(256) & ~0x60
-            if i == dec_at:
+            if i in dec_at:
                 a |= 0x20
-            if i == enc_at:
+            if i in enc_at:
                 a |= 0x40
             self.force[("TPMS_AUTH_COMMAND", "sessionAttributes")] = a
             b, e = self.build("TPMS_AUTH_COMMAND", parent + ((last[0], i),))
@@ -206,10 +209,11 @@ class Gen:
     def sessions_response(self, path, n, encrypt=False):
         out, evs = b"", [(path, "list[TPMS_AUTH_RESPONSE]", None)]
         parent, last = path[:-1], path[-1]
-        enc_at = self.rng.randrange(n) if (encrypt and n) else None
+        k = 2 if (n >= 2 and (getattr(self, "flag_twice", False) or self.rng.random() < 0.15)) else 1
+        enc_at = set(self.rng.sample(range(n), k)) if (encrypt and n) else set()
         for i in range(n):
             a = self.rng.randrange(256) & ~0x40
-            if i == enc_at:
+            if i in enc_at:
                 a |= 0x40
             self.force[("TPMS_AUTH_RESPONSE", "sessionAttributes")] = a
             b, e = self.build("TPMS_AUTH_RESPONSE", parent + ((last[0], i),))
@@ -301,7 +305,8 @@ class Gen:
         return head + body, evs, dict(cc=cc, enc=(True if enc else None), rc=0)
 
     def pair(self, cc, config=None):
-        """A command and a matching response.  config: dict(sessions, decrypt, encrypt, fail)."""
+        """A command and a matching response.  config: dict(sessions, decrypt, encrypt, fail, flag_twice)."""
+        self.flag_twice = bool((config or {}).get("flag_twice")) if isinstance(config, dict) else False
         c = config or self.random_config()
         cb, cev, ci = self.command(cc, c.get("sessions", 0), c.get("decrypt", False), c.get("encrypt", False), session_tag=c.get("session_tag", False))
         if c.get("fail"):
